@@ -318,6 +318,28 @@ theorem md_ops_frame (t : Table α) (m : List (Id × Md)) (ax : Axis) (keys : Op
     cases h
     exact ⟨rfl, rfl, rfl, rfl⟩
 
+/-- **store_others_unchanged** — in the model live tables are values in a store and an update
+    replaces the receiver's slot: every other slot holds the table it held (the implementation's
+    tables are objects that may share per-ID dicts; that they do not is checked on the real code by
+    the `others-unchanged` clause of the correspondence, not proved). -/
+theorem store_others_unchanged (f : Table α → Table α) (i j : Nat) (ts : List (Table α)) (h : j ≠ i) :
+    (storeUpdate f i ts)[j]? = ts[j]? := by
+  unfold storeUpdate
+  induction ts generalizing i j with
+  | nil => cases i <;> rfl
+  | cons x xs ih =>
+    cases i with
+    | zero =>
+      cases j with
+      | zero => exact absurd rfl h
+      | succ j' => rfl
+    | succ i' =>
+      cases j with
+      | zero => rfl
+      | succ j' =>
+        simp only [modifyAt, List.getElem?_cons_succ]
+        exact ih i' j' (fun e => h (by rw [e]))
+
 /-- the collapse rule: with explicit keys a chosen axis ends up without metadata exactly when it had
     entries and every entry lost all its keys; with `keys=None` it always ends up without -/
 theorem delMd_collapse (ks : List String) (mds : List Md) :
